@@ -1,6 +1,6 @@
 (* TieC14.v — facts regenerated from /repo (gen/Facts.v) equal what Property.v assumes. *)
 From Coq Require Import String List NArith.
-From QV Require Import Property Facts.
+From QV Require Import Property PropertySubs Facts.
 Import ListNotations.
 Local Open Scope string_scope.
 
@@ -44,3 +44,22 @@ Lemma tie_meta : has f_bomb_meta_text
   /\ prop_uid = 101%N.
 Proof. split; reflexivity. Qed.
 Lemma tie_actions : f_action_property = 5%N /\ f_action_setproperty = 6%N. Proof. split; reflexivity. Qed.
+
+(* the subscriber table (PropertySubs.v).  add_user: a (user id, endpoint) pair already in the table is
+   refused before anything is changed, otherwise the entry is appended; remove_user: first entry with
+   this (user id, endpoint), the last entry is moved into its slot; subs_of: UpdateSignal sends to the
+   entries of that signal id, in table order; SignalBoom is UpdateSignal(100, le32 x) *)
+Lemma tie_add_user_text : f_c14_addsignaluser_text =
+  "func (o *signalHandler) addSignalUser(userID uint64, signalID, messageID uint32, from Channel) error { newUser := signalUser{ signalID: signalID, messageID: messageID, userID: userID, context: from, contextID: 0, } o.signalsMutex.Lock() for _, user := range o.signals { if user.userID == userID && user.context.EndPoint() == from.EndPoint() { o.signalsMutex.Unlock() return fmt.Errorf("""", userID) } } o.signalsMutex.Unlock() e := from.EndPoint() f := func(hdr *net.Header) (bool, bool) { return false, true } q := make(chan<- *net.Message) cl := func(err error) { o.removeSignalUser(userID, from) } newUser.contextID = e.MakeHandler(f, q, cl) o.signalsMutex.Lock() o.signals = append(o.signals, newUser) o.signalsMutex.Unlock() return nil }".
+Proof. reflexivity. Qed.
+Lemma tie_remove_user_text : f_c14_removesignaluser_text =
+  "func (o *signalHandler) removeSignalUser(userID uint64, from Channel) error { o.signalsMutex.Lock() for i, user := range o.signals { if user.userID == userID { if from.EndPoint() == user.context.EndPoint() { o.signals[i] = o.signals[len(o.signals)-1] o.signals = o.signals[:len(o.signals)-1] o.signalsMutex.Unlock() user.context.EndPoint().RemoveHandler(user.contextID) return nil } } } o.signalsMutex.Unlock() return fmt.Errorf("""", userID) }".
+Proof. reflexivity. Qed.
+Lemma tie_update_signal_text : f_c14_updatesignal_text =
+  "func (o *signalHandler) UpdateSignal(signalID uint32, data []byte) error { var ret error signals := make([]signalUser, 0) o.signalsMutex.RLock() for _, user := range o.signals { if user.signalID == signalID { signals = append(signals, user) } } o.signalsMutex.RUnlock() for _, user := range signals { err := o.replyEvent(&user, signalID, data) if err == io.EOF { err := o.removeSignalUser(user.userID, user.context) if err != nil && ret == nil { ret = err } } else if err != nil { ret = err } } return ret }".
+Proof. reflexivity. Qed.
+Lemma tie_signalboom_text : f_bomb_signalboom_text =
+  "func (p *stubBomb) SignalBoom(energy int32) error { var buf bytes.Buffer if err := basic.WriteInt32(energy, &buf); err != nil { return fmt.Errorf("""", err) } err := p.signal.UpdateSignal(100, buf.Bytes()) if err != nil { return fmt.Errorf("""", err) } return nil }"
+  /\ boom_uid = 100%N.
+Proof. split; reflexivity. Qed.
+Lemma tie_register_actions : f_action_registerevent = 0%N /\ f_action_unregisterevent = 1%N. Proof. split; reflexivity. Qed.
